@@ -64,17 +64,35 @@ Fixpoint scan (n1 n2 : Z) (st : list (Z * Z)) : K :=
   end.
 Definition credit_of_loop (n1 n2 : Z) (loop : list Z) : K :=
   if zmem n1 loop && zmem n2 loop then scan n1 n2 (steps loop) else f0.
-(* `current` for an element with equipotential node names (n1, n2): sum over all meshes *)
-Fixpoint mesh_current (n1 n2 : Z) (loops : list (list Z)) (Im : nat -> K) (idx : nat) : K :=
-  match loops with
-  | [] => f0
-  | lp :: loops' => fadd (fmul (credit_of_loop n1 n2 lp) (Im idx)) (mesh_current n1 n2 loops' Im (S idx))
-  end.
 (* the graph: edge (a,b) -> position of the component in N (None = dummy wire / no edge);
    given as an association list on unordered pairs, as cg.component answers *)
 Definition edge_lookup (edges : list (Z * Z * nat)) (a b : Z) : option nat :=
   match find (fun t => match t with (x, y, _) => (Z.eqb x a && Z.eqb y b) || (Z.eqb x b && Z.eqb y a) end) edges with
   | Some (_, _, i) => Some i | None => None end.
+(* the scan when crediting goes by the component itself: the first step of the mesh whose graph
+   edge carries component i; forward when the step starts at the component's first node *)
+Fixpoint scan_e (edges : list (Z * Z * nat)) (i : nat) (n1 : Z) (st : list (Z * Z)) : K :=
+  match st with
+  | [] => f0
+  | (a, b) :: st' =>
+      match edge_lookup edges a b with
+      | Some j => if Nat.eqb j i then (if Z.eqb n1 a then mesh_credit_fwd else mesh_credit_bwd) else scan_e edges i n1 st'
+      | None => scan_e edges i n1 st'
+      end
+  end.
+(* what one mesh contributes to `current` of component i with equipotential node names (n1, n2);
+   which of the two scans the source uses is regenerated (mesh_credit_by_edge) *)
+Definition credit_of (edges : list (Z * Z * nat)) (i : nat) (n1 n2 : Z) (loop : list Z) : K :=
+  if mesh_credit_by_edge then scan_e edges i n1 (steps loop) else credit_of_loop n1 n2 loop.
+(* `current` for component i: sum over all meshes *)
+Fixpoint mesh_current (edges : list (Z * Z * nat)) (i : nat) (n1 n2 : Z) (loops : list (list Z)) (Im : nat -> K) (idx : nat) : K :=
+  match loops with
+  | [] => f0
+  | lp :: loops' => fadd (fmul (credit_of edges i n1 n2 lp) (Im idx)) (mesh_current edges i n1 n2 loops' Im (S idx))
+  end.
+(* does the step a -> b run along the component from its first to its second node? *)
+Definition step_fwd e (ab : Z * Z) : bool :=
+  if mesh_fwd_first_only then Z.eqb (le_n1 e) (fst ab) else Z.eqb (le_n1 e) (fst ab) && Z.eqb (le_n2 e) (snd ab).
 (* one step a -> b of _process_loop for mesh m *)
 Definition mesh_step (k : lkind) (s : K) N (edges : list (Z * Z * nat)) (loops : list (list Z))
     (Im Im0 : nat -> K) (m : nat) (ab : Z * Z) : K :=
@@ -84,11 +102,11 @@ Definition mesh_step (k : lkind) (s : K) N (edges : list (Z * Z * nat)) (loops :
     match nth_error N i with
     | None => f0
     | Some e =>
-      let fwd := Z.eqb (le_n1 e) (fst ab) && Z.eqb (le_n2 e) (snd ab) in
+      let fwd := step_fwd e ab in
       if is_V e then mesh_term true fwd (veq_of LV k (le_par e) s (Im m) (Im0 m))
       else mesh_term false fwd (veq_of (le_cls e) k (le_par e) s
-                                  (mesh_current (le_n1 e) (le_n2 e) loops Im 0)
-                                  (mesh_current (le_n1 e) (le_n2 e) loops Im0 0))
+                                  (mesh_current edges i (le_n1 e) (le_n2 e) loops Im 0)
+                                  (mesh_current edges i (le_n1 e) (le_n2 e) loops Im0 0))
     end
   end.
 Definition mesh_residual (k : lkind) (s : K) N edges (loops : list (list Z)) (Im Im0 : nat -> K) (m : nat) : K :=
@@ -96,7 +114,7 @@ Definition mesh_residual (k : lkind) (s : K) N edges (loops : list (list Z)) (Im
 End Model.
 Arguments ceq_of {K}. Arguments veq_of {K}. Arguments sumL {K}. Arguments unk {K}. Arguments touches {K}.
 Arguments contrib {K}. Arguments is_V {K}. Arguments node_residual {K}. Arguments pick_ok {K}.
-Arguments scan {K}. Arguments credit_of_loop {K}. Arguments mesh_current {K}. Arguments mesh_step {K}.
+Arguments scan {K}. Arguments credit_of_loop {K}. Arguments scan_e {K}. Arguments credit_of {K}. Arguments step_fwd {K}. Arguments mesh_current {K}. Arguments mesh_step {K}.
 Arguments mesh_residual {K}.
 
 (* ---- correspondence helpers (Qc for s / dc / time kinds, Gaussian rationals for phasors) ---- *)
